@@ -313,6 +313,14 @@ def run(repo, check):
     check.add(r4b)
     check.run_rule(rule_r5, repo)
     check.run_rule(rule_r6, repo)
+    from sa.rules import c07
+    r7 = c07.rule_r6(repo)
+    r7.rule = 'C02.R7'
+    r7.title = 'the encoder takes a bitmap from the bits of the subset being encoded (shared with C07.R6)'
+    r7.findings = [f for f in r7.findings if f.key.startswith('Encoder.')]
+    for f in r7.findings:
+        f.rule = 'C02.R7'
+    check.add(r7)
     check.assumptions = ['bitstring writes an n-bit unsigned field MSB first and refuses values that do not fit (trusted base)',
                          'byte identity with an independent encoder is a runtime fact and is not decided; the rules decide that the encoder '
                          'and the decoder agree on every field sequence and that the arithmetic is the FM-94 one']
